@@ -184,12 +184,13 @@ pub fn stub_calc(_b: &Board, _c: Color) -> (BitBoard, BitBoard) {
 }
 
 /// A fully symbolic builder state and its content as a reference position.
-fn sym_builder<N: Nd>(n: &mut N) -> (BoardBuilder, Pos, u8 /* ep square or 64 */) {
+fn sym_builder<N: Nd>(n: &mut N, ranks: u8) -> (BoardBuilder, Pos, u8 /* ep square or 64 */) {
     let mut bb = BoardBuilder::empty();
     let mut p = Pos { pc: [0; 6], col: [0; 2], stm: 0, castle: [[NONE; 2]; 2], ep: NONE };
     let mut s = 0u8;
     while s < 64 {
-        let cell = n.u8();
+        // cells on ranks outside `ranks` are empty (bounded variant for the quick tier)
+        let cell = if (ranks >> (s >> 3)) & 1 != 0 { n.u8() } else { 12 };
         n.assume(cell <= 12);
         if cell < 12 {
             let (pc, c) = (cell % 6, cell / 6);
@@ -220,8 +221,8 @@ fn sym_builder<N: Nd>(n: &mut N) -> (BoardBuilder, Pos, u8 /* ep square or 64 */
 }
 
 /// `build()`: classification, error attribution and content of the result.
-pub fn build_seq<N: Nd>(n: &mut N, with_hash: bool) {
-    let (bb, mut p, eps) = sym_builder(n);
+pub fn build_seq<N: Nd>(n: &mut N, with_hash: bool, ranks: u8) {
+    let (bb, mut p, eps) = sym_builder(n, ranks);
     let (half, full) = (bb.halfmove_clock, bb.fullmove_number);
     // what the (stubbed) validators answer = what the reference says about the content
     let board_ok = refm::board_ok(&p);
@@ -469,7 +470,7 @@ pub fn setters_panic<N: Nd>(n: &mut N, which: u8) {
     vcover!(true, "!setter returned on an out-of-range clock");
 }
 
-crate::proofs! {
+crate::bproofs! {
     #[kani::should_panic]
     c06_set_half_panics => |n: &mut _| setters_panic(n, 0);
     #[kani::should_panic]
@@ -498,11 +499,23 @@ crate::proofs! {
     #[kani::stub(cozy_chess::Board::castle_rights_are_valid, crate::c06::stub_castle_valid)]
     #[kani::stub(cozy_chess::Board::en_passant_is_valid, crate::c06::stub_ep_valid)]
     #[kani::stub(cozy_chess::Board::calculate_checkers_and_pins, crate::c06::stub_calc)]
-    c09_build_seq => |n: &mut _| build_seq(n, false);
+    c09_build_seq_r1458 => |n: &mut _| build_seq(n, false, 0b1001_1001);
     #[kani::stub(cozy_chess::Board::board_is_valid, crate::c06::stub_board_is_valid)]
     #[kani::stub(cozy_chess::Board::checkers_and_pins_are_valid, crate::c06::stub_ckpin_valid)]
     #[kani::stub(cozy_chess::Board::castle_rights_are_valid, crate::c06::stub_castle_valid)]
     #[kani::stub(cozy_chess::Board::en_passant_is_valid, crate::c06::stub_ep_valid)]
     #[kani::stub(cozy_chess::Board::calculate_checkers_and_pins, crate::c06::stub_calc)]
-    c09_build_seq_hash => |n: &mut _| build_seq(n, true);
+    c09_build_seq_r2367 => |n: &mut _| build_seq(n, false, 0b0110_0110);
+    #[kani::stub(cozy_chess::Board::board_is_valid, crate::c06::stub_board_is_valid)]
+    #[kani::stub(cozy_chess::Board::checkers_and_pins_are_valid, crate::c06::stub_ckpin_valid)]
+    #[kani::stub(cozy_chess::Board::castle_rights_are_valid, crate::c06::stub_castle_valid)]
+    #[kani::stub(cozy_chess::Board::en_passant_is_valid, crate::c06::stub_ep_valid)]
+    #[kani::stub(cozy_chess::Board::calculate_checkers_and_pins, crate::c06::stub_calc)]
+    c09_build_seq => |n: &mut _| build_seq(n, false, 0xFF);
+    #[kani::stub(cozy_chess::Board::board_is_valid, crate::c06::stub_board_is_valid)]
+    #[kani::stub(cozy_chess::Board::checkers_and_pins_are_valid, crate::c06::stub_ckpin_valid)]
+    #[kani::stub(cozy_chess::Board::castle_rights_are_valid, crate::c06::stub_castle_valid)]
+    #[kani::stub(cozy_chess::Board::en_passant_is_valid, crate::c06::stub_ep_valid)]
+    #[kani::stub(cozy_chess::Board::calculate_checkers_and_pins, crate::c06::stub_calc)]
+    c09_build_seq_hash => |n: &mut _| build_seq(n, true, 0xFF);
 }
